@@ -30,6 +30,18 @@ Ltac zconds := repeat (match goal with
   | |- context [(?a =? ?b)%Z] => destruct (Z.eqb_spec a b); try lia
   end); cbn [andb negb].
 
+(* robust against arithmetic refactoring of the source: every sqrt argument of the
+   generated formula is matched up to ring equality *)
+Lemma ylos_eq x Rc u : x <= Rc -> u = Rc * Rc - x * x -> ylos x Rc = sqrt u.
+Proof. intros H E; rewrite ylos_above by auto; rewrite E; reflexivity. Qed.
+
+Ltac ylos_to_sqrt :=
+  repeat match goal with
+  | |- context [ylos ?x ?Rc] =>
+      first [ rewrite (ylos_below x Rc) by lra
+            | match goal with |- context [sqrt ?u] => rewrite (ylos_eq x Rc u) by (try lra; try ring; try field) end ]
+  end.
+
 Lemma daun0_entry (i j : Z) : (0 <= i)%Z -> (0 <= j)%Z ->
   daun_p0 j i = Abel (rect (IZR j)) (IZR j + 1 / 2) (IZR i).
 Proof.
@@ -37,12 +49,7 @@ Proof.
   assert (Hx : 0 <= IZR i) by (apply IZR_le; lia).
   assert (Hc : 0 <= IZR j) by (apply IZR_le; lia).
   rewrite Abel_rect by assumption.
-  unfold daun_p0. zconds; z2r.
-  - rewrite 2!ylos_pow by lra. ring.
-  - rewrite ylos_pow by lra. rewrite (ylos_below _ (IZR j - 1 / 2)) by lra. ring.
-  - rewrite ylos_pow by lra. rewrite (ylos_below _ (IZR j - 1 / 2)) by lra. ring.
-  - rewrite 2!ylos_below by lra. ring.
-  - rewrite 2!ylos_below by lra. ring.
+  unfold daun_p0. zconds; z2r; ylos_to_sqrt; ring.
 Qed.
 
 Ltac pt_close j :=
@@ -83,9 +90,20 @@ Proof. rewrite <- sqrt_4u. f_equal. field. Qed.
 (* Dasch's onion-peeling weight matrix is the transposed degree-0 Daun matrix
    (every entry, every size).  dasch.py returns inv(W); daun.py (degree 0,
    no regularisation) solves with the matrix of daun_p0. *)
+Lemma sqrt_eq_2sqrt u c : u = 4 * c -> sqrt u = 2 * sqrt c.
+Proof. intros ->; apply sqrt_4u. Qed.
+
+(* pair every sqrt of the onion formula with the sqrt of the daun formula whose
+   argument is a quarter of it (up to field equality) *)
+Ltac sqrt_pairs :=
+  repeat match goal with
+  | |- context [sqrt ?u] =>
+      match goal with |- context [sqrt ?c] => rewrite (sqrt_eq_2sqrt u c) by field end
+  end.
+
 Lemma onion_W_eq_daun0 (cols i j : Z) : (0 <= i < cols)%Z -> (0 <= j < cols)%Z ->
   onion_W cols i j = daun_p0 j i.
 Proof.
   intros Hi Hj. unfold onion_W, daun_p0.
-  zconds; rewrite ?sqrt_onion_p, ?sqrt_onion_m; ring.
+  zconds; sqrt_pairs; ring.
 Qed.
